@@ -170,3 +170,74 @@ def run(ctx):
 
     for construct, ok, msg, rel_, line in hash_purity_obligations(repo):
         r6.check(ok, construct, msg, rel_, line)
+
+    # ---- C16.7 pickled state of Value classes holds no raw unordered attribute ----------------------------
+    # A Value nested in a list/tuple/dict argument is hashed through pickle_dumps(container) -> __getstate__; a set placed in the
+    # state is pickled in iteration order, so the container's hash follows PYTHONHASHSEED.
+    r7 = ctx.rule("C16.7", "__getstate__ of a Value class hands no set-typed attribute to pickle in iteration order", floor=2)
+
+    def set_typed(e) -> bool:
+        if isinstance(e, (ast.Set, ast.SetComp)):
+            return True
+        if isinstance(e, ast.Call) and call_name(e) in ("set", "frozenset"):
+            return True
+        if isinstance(e, ast.BoolOp):
+            return any(set_typed(v) for v in e.values)
+        if isinstance(e, ast.BinOp) and isinstance(e.op, (ast.BitOr, ast.BitAnd, ast.Sub)):
+            return set_typed(e.left) or set_typed(e.right)
+        return False
+
+    def set_annotation(a) -> bool:
+        t = src(a)
+        return t.split("[")[0].strip("\"'") in ("set", "Set", "frozenset", "FrozenSet", "typing.Set")
+
+    n_states = 0
+    for m, c in repo.subclasses(vbase):
+        set_attrs: set[str] = set()
+
+        def raw(v) -> bool:
+            # the empty set has one iteration order
+            if isinstance(v, ast.Call) and call_name(v) in ("set", "frozenset") and not v.args and not v.keywords:
+                return False
+            if isinstance(v, ast.IfExp):
+                return raw(v.body) or raw(v.orelse)
+            if isinstance(v, ast.BoolOp):
+                return any(raw(x) for x in v.values)
+            if isinstance(v, ast.Attribute) and src(v.value) == "self" and v.attr in set_attrs:
+                return True
+            return set_typed(v)
+
+        gs = next((st for st in c.body if isinstance(st, FuncNode) and st.name == "__getstate__"), None)
+        if gs is None:
+            continue
+        n_states += 1
+        for mm, cc in repo.mro(m, c):
+            for n in ast.walk(cc):
+                if isinstance(n, ast.AnnAssign) and isinstance(n.target, ast.Attribute) and src(n.target.value) == "self":
+                    if set_annotation(n.annotation) or (n.value is not None and set_typed(n.value)):
+                        set_attrs.add(n.target.attr)
+                elif isinstance(n, ast.Assign) and set_typed(n.value):
+                    for t in n.targets:
+                        if isinstance(t, ast.Attribute) and src(t.value) == "self":
+                            set_attrs.add(t.attr)
+        for d in ast.walk(gs):
+            vals = []
+            if isinstance(d, ast.Dict):
+                vals = [(k, v) for k, v in zip(d.keys, d.values) if k is not None]
+            elif isinstance(d, ast.Call) and last_attr(d) == "update":
+                vals = [(ast.Constant(kw.arg), kw.value) for kw in d.keywords if kw.arg]
+            for k, v in vals:
+                if raw(v):
+                    r7.check(
+                        False,
+                        f"{m.rel}:{c.name}.__getstate__:{const_str(k) or src(k)}:raw-set",
+                        f"state entry {src(k)} is the set `{src(v)}`: when a {c.name} is nested inside a container argument the container is hashed "
+                        "through pickle_dumps, which writes the set in iteration order, so the hash changes with PYTHONHASHSEED; store sorted(...) "
+                        "and rebuild the set in __setstate__",
+                        m.rel,
+                        v.lineno,
+                    )
+                else:
+                    r7.check(True, f"{m.rel}:{c.name}.__getstate__:{const_str(k) or src(k)}", "", m.rel, v.lineno)
+    if n_states < 8:
+        raise AnalysisError(f"only {n_states} __getstate__ methods of Value classes found", "__getstate__")
